@@ -20,7 +20,7 @@ def play(spec):
     r = R()
     child = R((r,))          # a deriving registry must keep following r (also across rebuild)
     m = Model()
-    vals = [Eq(0), Eq(0), Eq(1), object()]
+    vals = [Eq(0), Eq(0), Eq(1), object(), regcommon.Falsy(5)]
     pool = ifs + [None]
     bad = []
     nq = 0
@@ -130,7 +130,7 @@ def random_spec(rnd):
             ops.append(('rebuild',))
         else:
             k = rnd.choice(keys)
-            ops.append((kind, k[0], k[1], k[2], rnd.choice([None, 0, 1, 2, 3])))
+            ops.append((kind, k[0], k[1], k[2], rnd.choice([None, 0, 1, 2, 3, 4])))
     return (shape, rnd.choice('AV'), tuple(ops))
 
 
